@@ -185,7 +185,7 @@ def main():
             else:
                 nshards = max(1, min(len(names), g.get("shards", a.jobs)))
                 shards = [names[i::nshards] for i in range(nshards)]
-            tmo = g.get("solver_timeout_ms", {}).get(a.tier, 10000 if a.tier == "quick" else 60000)
+            tmo = g.get("solver_timeout_ms", {}).get(a.tier, 30000 if a.tier == "quick" else 60000)
             for si, sh in enumerate(shards):
                 jobs.append((g, sh, a.tier, cfgpath, os.path.join(work, "out%d_%d.json" % (gi, si)), tmo))
         jobs.sort(key=lambda j: -sum(past_cost.get(n, 5.0) for n in j[1]))
